@@ -19,6 +19,10 @@ import (
 var lastTier int
 var sawWide bool
 
+// concMode: several goroutines run the observers at once; the path hook and its
+// globals are switched off so that the harness itself shares nothing.
+var concMode bool
+
 func init() {
 	fp.VerifPath = func(t int) { lastTier = t }
 	fp.VerifWide = func() { sawWide = true }
@@ -39,9 +43,13 @@ func runFloat(sw *shardWriter, j *jb, input []byte, st *genStats) (tier int, wid
 		}
 		j.ints(append([]int{k, b2i(err == nil), p}, bitsWords(v)...))
 	}
-	lastTier, sawWide = 0, false
+	if !concMode {
+		lastTier, sawWide = 0, false
+	}
 	guardPanic(&panics, func() { v, p, err := rjson.ReadFloat64(input); row(1, err, p, v) })
-	tier, wide = lastTier, sawWide
+	if !concMode {
+		tier, wide = lastTier, sawWide
+	}
 	guardPanic(&panics, func() {
 		v := -12345.678
 		p, err := rjson.DecodeFloat64(input, &v)
@@ -78,9 +86,11 @@ func runFloat(sw *shardWriter, j *jb, input []byte, st *genStats) (tier int, wid
 		sw.write(j.b)
 	}
 	st.note(input, panics > 0)
-	st.Extra[fmt.Sprintf("tier%d", tier)]++
-	if wide {
-		st.Extra["wide"]++
+	if !concMode {
+		st.Extra[fmt.Sprintf("tier%d", tier)]++
+		if wide {
+			st.Extra["wide"]++
+		}
 	}
 	return tier, wide
 }
